@@ -210,7 +210,8 @@ def _job(a):
     # there is no line end behind the last token for nl_end_of_file to act on
     last = None
     for it in lex.lex(intext, lang):
-        last = it
+        if it[0] not in ("pp(", "pp)"):
+            last = it
     if last is not None and last[0].startswith("cmt") and ((last[1].startswith("/*") and not (len(last[1]) >= 4 and last[1].endswith("*/")))
                                                   or (last[1].startswith("/+") and not (len(last[1]) >= 4 and last[1].endswith("+/")))):
         ev["eofmode"] = "ignore"
